@@ -31,9 +31,21 @@ MODES = ["ssa", "ssa", "ssa", "volume", "volume", "delay", "delay", "delay", "de
 def gen_case(case_seed, cfg, modes=None, delays_in_plain=True, plain_delay_p=0.15, far_p=0.0):
     for attempt in range(50):
         case = _gen_case(seeds.derive(case_seed, "attempt", attempt), modes or MODES, delays_in_plain, plain_delay_p, far_p)
-        if netgen.bounded(case["model"]):
+        if netgen.bounded(case["model"]) and event_budget_ok(case):
             return case
     return case
+
+
+def event_budget_ok(case, budget=150000):
+    """Mean-field estimate of the number of firings over the whole grid, at the largest volume the run can reach."""
+    vol = None
+    if case.get("vol"):
+        vol = case["vol"]["v0"]
+        spec = case["vol"].get("spec")
+        if spec and spec.get("kind") == "time_threshold":
+            vol = vol * 2.0 ** min(8.0, case["grid"][-1] / spec["cycle"])
+    ev = netgen.expected_events(case["model"], case["grid"][-1], vol)
+    return ev[-1][0] >= case["grid"][-1] * (1 - 1e-9) and ev[-1][1] <= budget
 
 
 def _gen_case(case_seed, modes, delays_in_plain=True, plain_delay_p=0.15, far_p=0.0):
@@ -62,6 +74,9 @@ def _gen_case(case_seed, modes, delays_in_plain=True, plain_delay_p=0.15, far_p=
     grid = netgen.gen_grid(r, model, vol=(vol or {}).get("v0"),
                            target_events=400 if stratum == "absorb" else None)
     dt = grid[1] - grid[0]
+    if vol and vol.get("spec"):
+        # keep the total growth bounded (<= 2^4) even if the cell never divides: zero-order rates scale with the volume
+        vol["spec"]["cycle"] = netgen.nice(max(grid[-1], dt) * r.uniform(0.25, 3.0))
     if mode in ("delay", "delayvolume"):
         netgen.add_delays(r, model, dt, grid[-1], p=0.7, markers=not safe_pref, far=(r.random() < far_p))
     elif delays_in_plain and r.random() < plain_delay_p:
